@@ -82,6 +82,11 @@ impl Context<'_> {
         S: Into<String>,
     {
         let name = name.into();
+        #[cfg(cel_verif)]
+        crate::verif::point(
+            crate::verif::SITE_LOOKUP,
+            matches!(self, Context::Child { .. }) as u64,
+        );
         match self {
             Context::Child { variables, parent } => match variables.get(&name) {
                 Some(value) => Ok(value.clone()),
